@@ -420,7 +420,7 @@ func genChain(r *Runner, purpose string) {
 			bad = append(bad, m)
 		}
 	}
-	pairN := []int{3}
+	pairN := []int{2, 3, 4}
 	if !quick {
 		pairN = []int{1, 2, 3, 4, 5}
 	}
@@ -440,10 +440,7 @@ func genChain(r *Runner, purpose string) {
 				if len(bp) == 0 || len(vp) == 0 {
 					continue
 				}
-				if quick {
-					bp = []int{bp[rng.Intn(len(bp))]}
-					vp = []int{vp[rng.Intn(len(vp))]}
-				}
+				_ = quick // every pair of positions, in every tier
 				for _, p1 := range bp {
 					for _, p2 := range vp {
 						jobs = append(jobs, chainJob{purpose: purpose, n: n, muts: []chainMut{b, v}, poss: []int{p1, p2}, stKind: "nil", label: "pair"})
